@@ -207,7 +207,7 @@ func runC10(c *Ctx) {
 		}
 		fail := rep("FailRemaining")
 		var bad, sites []string
-		nRet := 0
+		nRet, nDeferred := 0, 0
 		ir.WalkAfter(mk[0], nil, func(in ssa.Instruction) bool {
 			r, ok := in.(*ssa.Return)
 			if !ok {
@@ -222,11 +222,15 @@ func runC10(c *Ctx) {
 			if ir.IsNil(v) {
 				return true // checked below by must-precede
 			}
+			if c.deferredOnError(fn, r, mk[0], callTo(fail)) {
+				nDeferred++
+				return true
+			}
 			bad = append(bad, "return at "+c.at(in)+" does not go through reporter.FailRemaining")
 			return true
 		})
 		sort.Strings(bad)
-		c.verdict(len(bad) == 0 && nRet >= 6, c.nm(fn)+" | error returns fail the remaining requests", c.P.Pos(fn.Pos()), fmt.Sprintf("%d returns after the reporter exists, all through FailRemaining or nil", nRet), join(bad), sites...)
+		c.verdict(len(bad) == 0 && (nRet >= 6 || nDeferred >= 1 && nRet >= 2), c.nm(fn)+" | error returns fail the remaining requests", c.P.Pos(fn.Pos()), fmt.Sprintf("%d returns after the reporter exists, all through FailRemaining or nil", nRet), join(bad), sites...)
 		// nil return preceded by NotifyUnspentAndUnfound
 		nu := rep("NotifyUnspentAndUnfound")
 		var badNil []string
@@ -890,6 +894,82 @@ func rangeLenOf(in ssa.Instruction) bool {
 			if _, isPhi := b.X.(*ssa.Phi); isPhi {
 				return true
 			}
+		}
+	}
+	return false
+}
+
+// deferredOnError: the return hands back the function's named error result,
+// and a function literal deferred behind `after` on every path to the return
+// (its defer statement dominates the return) makes the call `what` whenever
+// that named result is not nil when it runs: `defer func() { if err != nil {
+// what(err) } }()` is the deferred form of `return what(err)` at every error
+// return.
+func (c *Ctx) deferredOnError(fn *ssa.Function, r *ssa.Return, after ssa.Instruction, what Sel) bool {
+	if len(r.Results) == 0 {
+		return false
+	}
+	ld, ok := r.Results[len(r.Results)-1].(*ssa.UnOp)
+	if !ok || ld.Op != token.MUL {
+		return false
+	}
+	cell, ok := ld.X.(*ssa.Alloc)
+	if !ok {
+		return false
+	}
+	for _, d := range find(fn, func(in ssa.Instruction) bool { _, ok := in.(*ssa.Defer); return ok }) {
+		df := d.(*ssa.Defer)
+		mc, ok := df.Call.Value.(*ssa.MakeClosure)
+		if !ok || !df.Block().Dominates(r.Block()) {
+			continue
+		}
+		if !(after.Block() == df.Block() && ir.IndexIn(after) < ir.IndexIn(df) || after.Block() != df.Block() && after.Block().Dominates(df.Block())) {
+			continue
+		}
+		lit, ok := mc.Fn.(*ssa.Function)
+		if !ok {
+			continue
+		}
+		var fv *ssa.FreeVar
+		for i, b := range mc.Bindings {
+			if b == ssa.Value(cell) {
+				fv = lit.FreeVars[i]
+			}
+		}
+		if fv == nil {
+			continue
+		}
+		// paths through the literal on which the result is nil are cut; every
+		// other path to an exit must make the call
+		cut := ir.Cut{}
+		ir.Instrs(lit, func(in ssa.Instruction) {
+			u, ok := in.(*ssa.UnOp)
+			if !ok || u.Op != token.MUL || u.X != ssa.Value(fv) {
+				return
+			}
+			for _, b := range ir.NilBranches(u) {
+				if b.Pol >= 0 {
+					cut[b.Edge()] = true
+				}
+			}
+		})
+		if len(cut) == 0 || len(lit.Blocks) == 0 {
+			continue
+		}
+		okAll := true
+		ir.Walk(lit.Blocks[0], 0, cut, func(in ssa.Instruction) bool {
+			if what(in) {
+				return false
+			}
+			if isExit(in) {
+				okAll = false
+				return false
+			}
+			return true
+		})
+		if okAll {
+			c.R.Funcs[c.nm(lit)] = true
+			return true
 		}
 	}
 	return false
